@@ -68,3 +68,24 @@ CHECKS["C09"] = {
 CHECKS["C10"]["harnesses"].append(
     dict(_HTTP, harness="Harness_C10_bodies", setup="Setup_C10_bodies", reach=["bodies.rejected", "bodies.ok"],
          what="malformed bodies / query strings on POST, GET, urlencoded form and application/graphql transports through the real Executor; recover hook must not run"))
+
+CHECKS["C15"] = {
+    "assumptions": ["crypto/sha256 runs natively on concrete texts; mapstructure.Decode is a contract model (flat struct, integers from any numeric/json.Number)",
+                    "one-step induction: arbitrary cache pre-state satisfying key = SHA-256(text); eviction only removes entries"],
+    "harnesses": [
+        {"pkg": "graphql/handler/extension", "harness": "Harness_C15_apq", "workers": 4, "quick": {"sample_models": 200},
+         "reach": ["apq.noext", "apq.hit", "apq.notfound", "apq.registered", "apq.mismatch"],
+         "what": "AutomaticPersistedQuery.MutateOperationParameters: 4 cache pre-states x 3 texts x 11 extension shapes"},
+    ],
+}
+
+CHECKS["C07"] = {
+    "assumptions": ["sync.Pool model: Get returns the most recently Put object, else New() (the real pool may also drop objects, which only removes memory)",
+                    "one-step induction over the pool invariant 'pooled objects are all-zero'"],
+    "harnesses": [
+        {"pkg": "graphql/handler/transport", "harness": "Harness_C07_postPool", "reach": ["pool.checked"], "quick": {"sample_models": 60},
+         "what": "POST.Do from an all-zero pooled RawParams: 11 bodies x 4 executor outcomes (ok, rejected, panic before/after dispatch); object back in the pool is all-zero"},
+        {"pkg": "graphql/handler/transport", "harness": "Harness_C07_postHistory", "reach": ["history.compared", "history.rejected"], "quick": {"sample_models": 100, "sample_every": 5},
+         "what": "two POST requests through one pool: 11 x 11 bodies x 4 outcomes of the first; parameters seen for the second equal its own content"},
+    ],
+}
